@@ -14,33 +14,70 @@ use std::path::PathBuf;
 pub enum Mutation {
     None,
     /// set identification byte `which` (0..8, after the reserved prefix) to `val`
-    Byte { which: u8, val: u8 },
+    Byte {
+        which: u8,
+        val: u8,
+    },
     /// cut the file to a length (monotone map onto 0..=len)
-    Truncate { at: u16 },
+    Truncate {
+        at: u16,
+    },
     /// replace the file by `len` arbitrary bytes
-    Replace { len: u16, seed: u32 },
+    Replace {
+        len: u16,
+        seed: u32,
+    },
     /// keep the file, open with a different expected freelist kind
-    WrongFreelist { d: u8 },
+    WrongFreelist {
+        d: u8,
+    },
     /// keep the file, open with a different expected magic version
-    WrongMagic { d: u16 },
+    WrongMagic {
+        d: u16,
+    },
 }
 
 #[derive(Clone, Debug, Serialize, Deserialize)]
 pub enum RoOp {
-    AllocBytes { n: u16, owned: bool },
-    AllocAligned { ty: u8, n: u16, owned: bool },
-    AllocTyped { ty: u8, owned: bool },
+    AllocBytes {
+        n: u16,
+        owned: bool,
+    },
+    AllocAligned {
+        ty: u8,
+        n: u16,
+        owned: bool,
+    },
+    AllocTyped {
+        ty: u8,
+        owned: bool,
+    },
     Discard,
-    SetMinSeg { v: u32 },
-    IncDiscarded { v: u32 },
+    SetMinSeg {
+        v: u32,
+    },
+    IncDiscarded {
+        v: u32,
+    },
     Clear,
-    Flush { which: u8 },
-    Truncate { n: u16 },
-    Reader { off: u16 },
+    Flush {
+        which: u8,
+    },
+    Truncate {
+        n: u16,
+    },
+    Reader {
+        off: u16,
+    },
     /// unsafe API, within its safety conditions: no handle is in use, so any rewind is allowed
-    Rewind { sel: u8, d: i8 },
+    Rewind {
+        sel: u8,
+        d: i8,
+    },
     /// unsafe API, within its safety conditions: give back a range that was handed out before the file was closed
-    Dealloc { which: u8 },
+    Dealloc {
+        which: u8,
+    },
 }
 
 #[derive(Clone, Debug, Serialize, Deserialize)]
@@ -90,10 +127,15 @@ struct Built {
 }
 
 /// Build a valid arena file with a short history, leave stale non-zero bytes above the cursor.
-fn build<A: Flavor>(case: &CaseC09, classes: &mut BTreeSet<&'static str>) -> Result<Option<Built>, Viol> {
+fn build<A: Flavor>(
+    case: &CaseC09,
+    classes: &mut BTreeSet<&'static str>,
+) -> Result<Option<Built>, Viol> {
     let mut cfg = case.cfg.clone();
     cfg.backend = Backend::File;
-    let Some(mut w) = World::<A>::new(&cfg, Mode::default())? else { return Ok(None) };
+    let Some(mut w) = World::<A>::new(&cfg, Mode::default())? else {
+        return Ok(None);
+    };
     for (i, op) in case.pre.iter().enumerate() {
         if let Err(v) = w.step(i, op) {
             w.leak();
@@ -123,7 +165,11 @@ fn build<A: Flavor>(case: &CaseC09, classes: &mut BTreeSet<&'static str>) -> Res
     let capacity = w.a().capacity();
     let allocated = w.a().allocated();
     let nodes: Vec<u32> = w.a().fl().nodes.iter().map(|n| n.0).collect();
-    let live: Vec<(usize, usize)> = w.hs.iter().filter(|h| h.bcap > 0).map(|h| (h.boff, h.bcap)).collect();
+    let live: Vec<(usize, usize)> =
+        w.hs.iter()
+            .filter(|h| h.bcap > 0)
+            .map(|h| (h.boff, h.bcap))
+            .collect();
     let path = w.path.clone().unwrap();
     if let Err(v) = w.close_all() {
         w.leak();
@@ -132,10 +178,24 @@ fn build<A: Flavor>(case: &CaseC09, classes: &mut BTreeSet<&'static str>) -> Res
     w.path = None;
     w.leak();
     let bytes = std::fs::read(&path).unwrap_or_default();
-    Ok(Some(Built { path, bytes, capacity, allocated, nodes, live }))
+    Ok(Some(Built {
+        path,
+        bytes,
+        capacity,
+        allocated,
+        nodes,
+        live,
+    }))
 }
 
-fn run_refuse<A: Flavor>(case: &CaseC09, m: &Mutation, mode: u8, capsel: u8, create: bool, flags: u8) -> (BTreeSet<&'static str>, Option<Viol>) {
+fn run_refuse<A: Flavor>(
+    case: &CaseC09,
+    m: &Mutation,
+    mode: u8,
+    capsel: u8,
+    create: bool,
+    flags: u8,
+) -> (BTreeSet<&'static str>, Option<Viol>) {
     let mut classes = BTreeSet::new();
     let b = match build::<A>(case, &mut classes) {
         Ok(Some(b)) => b,
@@ -170,8 +230,14 @@ fn run_refuse<A: Flavor>(case: &CaseC09, m: &Mutation, mode: u8, capsel: u8, cre
             file.truncate(l);
         }
         Mutation::Replace { len, seed } => {
-            let l = if len % 3 == 0 { *len as usize % (2 * prefix + 2) } else { off + (*len as usize % 600) };
-            file = (0..l).map(|i| (seed.wrapping_mul(2654435761).wrapping_add(i as u32 * 40503) >> 11) as u8).collect();
+            let l = if len % 3 == 0 {
+                *len as usize % (2 * prefix + 2)
+            } else {
+                off + (*len as usize % 600)
+            };
+            file = (0..l)
+                .map(|i| (seed.wrapping_mul(2654435761).wrapping_add(i as u32 * 40503) >> 11) as u8)
+                .collect();
         }
         Mutation::WrongFreelist { d } => {
             let cur = case.cfg.freelist;
@@ -228,8 +294,16 @@ fn run_refuse<A: Flavor>(case: &CaseC09, m: &Mutation, mode: u8, capsel: u8, cre
         1 => o.with_capacity((b.capacity + 77) as u32),
         _ => o,
     };
-    let o = if create && writable { o.with_create(true) } else { o };
-    let o = if writable { o } else { crate::enga::ro_flags(o, flags) };
+    let o = if create && writable {
+        o.with_create(true)
+    } else {
+        o
+    };
+    let o = if writable {
+        o
+    } else {
+        crate::enga::ro_flags(o, flags)
+    };
     if !writable && flags & 31 != 0 {
         classes.insert("ro-open-with-write-flags");
     }
@@ -240,7 +314,9 @@ fn run_refuse<A: Flavor>(case: &CaseC09, m: &Mutation, mode: u8, capsel: u8, cre
     }
     let what = crate::enga::OPEN_NAMES[(mode as usize & 3) + 4 * usize::from(pb)];
     let path = b.path.clone();
-    let r = guard(what, "C09", || crate::enga::open_variant::<A>(o, mode & 3, pb, &path));
+    let r = guard(what, "C09", || {
+        crate::enga::open_variant::<A>(o, mode & 3, pb, &path)
+    });
     let viol = (|| -> Result<(), Viol> {
         let r = r?;
         let failed = r.is_err();
@@ -267,7 +343,13 @@ fn run_refuse<A: Flavor>(case: &CaseC09, m: &Mutation, mode: u8, capsel: u8, cre
     (classes, viol)
 }
 
-fn run_readonly<A: Flavor>(case: &CaseC09, mode: u8, capsel: u8, ops: &[RoOp], flags: u8) -> (BTreeSet<&'static str>, Option<Viol>) {
+fn run_readonly<A: Flavor>(
+    case: &CaseC09,
+    mode: u8,
+    capsel: u8,
+    ops: &[RoOp],
+    flags: u8,
+) -> (BTreeSet<&'static str>, Option<Viol>) {
     let mut classes = BTreeSet::new();
     let b = match build::<A>(case, &mut classes) {
         Ok(Some(b)) => b,
@@ -295,50 +377,99 @@ fn run_readonly<A: Flavor>(case: &CaseC09, mode: u8, capsel: u8, ops: &[RoOp], f
     }
     let what = crate::enga::OPEN_NAMES[2 + (mode as usize & 1) + 4 * usize::from(pb)];
     let viol = (|| -> Result<(), Viol> {
-        let r = guard(what, "C05", || crate::enga::open_variant::<A>(o, 2 + (mode & 1), pb, &path))?;
+        let r = guard(what, "C05", || {
+            crate::enga::open_variant::<A>(o, 2 + (mode & 1), pb, &path)
+        })?;
         let mut arena = match r {
             Ok(a) => a,
-            Err(e) => return Err(viol!("C05", "reopen-failed", "{what} of a valid file failed: {e}")),
+            Err(e) => {
+                return Err(viol!(
+                    "C05",
+                    "reopen-failed",
+                    "{what} of a valid file failed: {e}"
+                ))
+            }
         };
         if !arena.read_only() {
-            return Err(viol!("C09", "ro-flag", "{what} returned an arena with read_only()=false"));
+            return Err(viol!(
+                "C09",
+                "ro-flag",
+                "{what} returned an arena with read_only()=false"
+            ));
         }
-        let snap = |a: &A| (a.allocated(), a.discarded(), a.remaining(), a.capacity(), a.minimum_segment_size(), a.refs(), a.fl().nodes);
+        let snap = |a: &A| {
+            (
+                a.allocated(),
+                a.discarded(),
+                a.remaining(),
+                a.capacity(),
+                a.minimum_segment_size(),
+                a.refs(),
+                a.fl().nodes,
+            )
+        };
         let mut mutators: BTreeSet<&'static str> = BTreeSet::new();
         for (i, op) in ops.iter().enumerate() {
             let pre = snap(&arena);
             let mem_before = arena.memory().to_vec();
             let ar: &'static A = unsafe { &*(&arena as *const A) };
             // a documented panic must mention read-only
-            let mut call = |name: &'static str, f: &mut dyn FnMut() -> Result<bool, String>| -> Result<(), Viol> {
+            let mut call = |name: &'static str,
+                            f: &mut dyn FnMut() -> Result<bool, String>|
+             -> Result<(), Viol> {
                 mutators.insert(name);
                 match std::panic::catch_unwind(std::panic::AssertUnwindSafe(|| f())) {
                     Ok(Ok(_)) => Ok(()),
-                    Ok(Err(e)) => Err(viol!("C09", format!("ro-{name}"), "op {i} {op:?} on a read-only arena: {e}")),
+                    Ok(Err(e)) => Err(viol!(
+                        "C09",
+                        format!("ro-{name}"),
+                        "op {i} {op:?} on a read-only arena: {e}"
+                    )),
                     Err(p) => {
-                        let m = p.downcast_ref::<&str>().map(|s| s.to_string()).or_else(|| p.downcast_ref::<String>().cloned()).unwrap_or_default();
+                        let m = p
+                            .downcast_ref::<&str>()
+                            .map(|s| s.to_string())
+                            .or_else(|| p.downcast_ref::<String>().cloned())
+                            .unwrap_or_default();
                         if m.to_lowercase().contains("read-only") {
                             Ok(())
                         } else {
-                            Err(viol!("C09", format!("ro-{name}-panic"), "op {i} {op:?} on a read-only arena panicked: {m}"))
+                            Err(viol!(
+                                "C09",
+                                format!("ro-{name}-panic"),
+                                "op {i} {op:?} on a read-only arena panicked: {m}"
+                            ))
                         }
                     }
                 }
             };
             match op {
-                RoOp::AllocBytes { n, owned } => call("alloc_bytes", &mut || match alloc_bytes(ar, *n as u32, *owned) {
+                RoOp::AllocBytes { n, owned } => call("alloc_bytes", &mut || match alloc_bytes(
+                    ar, *n as u32, *owned,
+                ) {
                     Err(Error::ReadOnly) => Ok(true),
                     Ok(h) if h.capacity() == 0 => Ok(true),
                     Ok(h) => Err(format!("returned a handle of capacity {}", h.capacity())),
                     Err(e) => Err(format!("returned {e:?}")),
                 })?,
-                RoOp::AllocAligned { ty, n, owned } => call("alloc_aligned_bytes", &mut || match alloc_aligned(ar, *ty as usize % crate::types::ntypes(), *n as u32, *owned) {
-                    Err(Error::ReadOnly) => Ok(true),
-                    Ok(h) if h.capacity() == 0 => Ok(true),
-                    Ok(h) => Err(format!("returned a handle of capacity {}", h.capacity())),
-                    Err(e) => Err(format!("returned {e:?}")),
-                })?,
-                RoOp::AllocTyped { ty, owned } => call("alloc", &mut || match alloc_typed(ar, *ty as usize % crate::types::ntypes(), *owned) {
+                RoOp::AllocAligned { ty, n, owned } => {
+                    call("alloc_aligned_bytes", &mut || match alloc_aligned(
+                        ar,
+                        *ty as usize % crate::types::ntypes(),
+                        *n as u32,
+                        *owned,
+                    ) {
+                        Err(Error::ReadOnly) => Ok(true),
+                        Ok(h) if h.capacity() == 0 => Ok(true),
+                        Ok(h) => Err(format!("returned a handle of capacity {}", h.capacity())),
+                        Err(e) => Err(format!("returned {e:?}")),
+                    })?
+                }
+                RoOp::AllocTyped { ty, owned } => call("alloc", &mut || match alloc_typed(
+                    ar,
+                    *ty as usize % crate::types::ntypes(),
+                    *owned,
+                ) {
                     Err(Error::ReadOnly) => Ok(true),
                     Ok(mut h) if h.capacity() == 0 => {
                         h.detach();
@@ -376,19 +507,37 @@ fn run_readonly<A: Flavor>(case: &CaseC09, mode: u8, capsel: u8, ops: &[RoOp], f
                 }
                 RoOp::Truncate { n } => {
                     let nn = *n as usize;
-                    let r = std::panic::catch_unwind(std::panic::AssertUnwindSafe(|| arena.truncate_(nn)));
+                    let r = std::panic::catch_unwind(std::panic::AssertUnwindSafe(|| {
+                        arena.truncate_(nn)
+                    }));
                     match r {
                         Ok(None) => {}
                         Ok(Some(Err(_))) => {
                             mutators.insert("truncate");
                         }
-                        Ok(Some(Ok(()))) => return Err(viol!("C09", "ro-truncate", "op {i}: truncate({nn}) succeeded on a read-only arena")),
-                        Err(_) => return Err(viol!("C09", "ro-truncate-panic", "op {i}: truncate({nn}) panicked on a read-only arena")),
+                        Ok(Some(Ok(()))) => {
+                            return Err(viol!(
+                                "C09",
+                                "ro-truncate",
+                                "op {i}: truncate({nn}) succeeded on a read-only arena"
+                            ))
+                        }
+                        Err(_) => {
+                            return Err(viol!(
+                                "C09",
+                                "ro-truncate-panic",
+                                "op {i}: truncate({nn}) panicked on a read-only arena"
+                            ))
+                        }
                     }
                 }
                 RoOp::Rewind { sel, d } => {
                     use rarena_allocator::ArenaPosition;
-                    let (al, cp, dof) = (arena.allocated() as i64, arena.capacity() as i64, arena.data_offset() as i64);
+                    let (al, cp, dof) = (
+                        arena.allocated() as i64,
+                        arena.capacity() as i64,
+                        arena.data_offset() as i64,
+                    );
                     let pos = match sel % 6 {
                         0 => ArenaPosition::Start((dof + *d as i64).max(0) as u32),
                         1 => ArenaPosition::Start((al + *d as i64).max(0) as u32),
@@ -422,10 +571,18 @@ fn run_readonly<A: Flavor>(case: &CaseC09, mode: u8, capsel: u8, ops: &[RoOp], f
             }
             let post = snap(&arena);
             if post != pre {
-                return Err(viol!("C09", "ro-state-changed", "op {i} {op:?} changed a read-only arena: {pre:?} -> {post:?}"));
+                return Err(viol!(
+                    "C09",
+                    "ro-state-changed",
+                    "op {i} {op:?} changed a read-only arena: {pre:?} -> {post:?}"
+                ));
             }
             if arena.memory() != &mem_before[..] {
-                return Err(viol!("C09", "ro-memory-changed", "op {i} {op:?} changed the memory of a read-only arena"));
+                return Err(viol!(
+                    "C09",
+                    "ro-memory-changed",
+                    "op {i} {op:?} changed the memory of a read-only arena"
+                ));
             }
         }
         if mutators.len() >= 3 {
@@ -435,7 +592,13 @@ fn run_readonly<A: Flavor>(case: &CaseC09, mode: u8, capsel: u8, ops: &[RoOp], f
         drop(arena);
         let now = std::fs::read(&b.path).unwrap_or_default();
         if now != b.bytes {
-            return Err(viol!("C09", "ro-session-altered-file", "file differs after a read-only session (len {} -> {})", b.bytes.len(), now.len()));
+            return Err(viol!(
+                "C09",
+                "ro-session-altered-file",
+                "file differs after a read-only session (len {} -> {})",
+                b.bytes.len(),
+                now.len()
+            ));
         }
         Ok(())
     })()
@@ -445,14 +608,54 @@ fn run_readonly<A: Flavor>(case: &CaseC09, mode: u8, capsel: u8, ops: &[RoOp], f
 }
 
 fn c09_run_inner(case: &CaseC09) -> CaseReport {
-        let (classes, viol) = match (&case.kind, case.cfg.flavor) {
-            (Kind::Refuse { m, mode, capsel, create, flags }, Fl::Sync) => run_refuse::<sync::Arena>(case, m, *mode, *capsel, *create, *flags),
-            (Kind::Refuse { m, mode, capsel, create, flags }, Fl::Unsync) => run_refuse::<unsync::Arena>(case, m, *mode, *capsel, *create, *flags),
-            (Kind::ReadOnly { mode, capsel, ops, flags }, Fl::Sync) => run_readonly::<sync::Arena>(case, *mode, *capsel, ops, *flags),
-            (Kind::ReadOnly { mode, capsel, ops, flags }, Fl::Unsync) => run_readonly::<unsync::Arena>(case, *mode, *capsel, ops, *flags),
-        };
-        let nontrivial = (classes.contains("open-refused") && classes.contains("stale-bytes-above-cursor")) || classes.contains("ro-3-mutators");
-        CaseReport { nontrivial, classes, viol }
+    let (classes, viol) = match (&case.kind, case.cfg.flavor) {
+        (
+            Kind::Refuse {
+                m,
+                mode,
+                capsel,
+                create,
+                flags,
+            },
+            Fl::Sync,
+        ) => run_refuse::<sync::Arena>(case, m, *mode, *capsel, *create, *flags),
+        (
+            Kind::Refuse {
+                m,
+                mode,
+                capsel,
+                create,
+                flags,
+            },
+            Fl::Unsync,
+        ) => run_refuse::<unsync::Arena>(case, m, *mode, *capsel, *create, *flags),
+        (
+            Kind::ReadOnly {
+                mode,
+                capsel,
+                ops,
+                flags,
+            },
+            Fl::Sync,
+        ) => run_readonly::<sync::Arena>(case, *mode, *capsel, ops, *flags),
+        (
+            Kind::ReadOnly {
+                mode,
+                capsel,
+                ops,
+                flags,
+            },
+            Fl::Unsync,
+        ) => run_readonly::<unsync::Arena>(case, *mode, *capsel, ops, *flags),
+    };
+    let nontrivial = (classes.contains("open-refused")
+        && classes.contains("stale-bytes-above-cursor"))
+        || classes.contains("ro-3-mutators");
+    CaseReport {
+        nontrivial,
+        classes,
+        viol,
+    }
 }
 
 impl Prop for C09 {
@@ -493,7 +696,20 @@ impl Prop for C09 {
             3 => (mutation, 0u8..8, 0u8..3, any::<bool>(), prop_oneof![2 => Just(0u8), 1 => 0u8..32]).prop_map(|(m, mode, capsel, create, flags)| Kind::Refuse { m, mode, capsel, create, flags }),
             2 => (0u8..4, 0u8..3, prop::collection::vec(roop, 1..=8), prop_oneof![2 => Just(0u8), 1 => 0u8..32]).prop_map(|(mode, capsel, ops, flags)| Kind::ReadOnly { mode, capsel, ops, flags }),
         ];
-        (case_strategy(&p), prop_oneof![1 => Just(0u8), 4 => 1u8..=120], kind, prop_oneof![3 => Just(None), 1 => any::<u8>().prop_map(Some)]).prop_map(|(c, stale, kind, crashmark)| CaseC09 { cfg: c.cfg, pre: c.ops, stale, kind, crashmark }).boxed()
+        (
+            case_strategy(&p),
+            prop_oneof![1 => Just(0u8), 4 => 1u8..=120],
+            kind,
+            prop_oneof![3 => Just(None), 1 => any::<u8>().prop_map(Some)],
+        )
+            .prop_map(|(c, stale, kind, crashmark)| CaseC09 {
+                cfg: c.cfg,
+                pre: c.ops,
+                stale,
+                kind,
+                crashmark,
+            })
+            .boxed()
     }
     fn run(case: &CaseC09) -> CaseReport {
         crate::enga::set_owner(Some("C09"));
@@ -514,12 +730,41 @@ impl Prop for C09 {
         ]
     }
     fn simplify(c: &CaseC09) -> Vec<CaseC09> {
-        let mut out: Vec<CaseC09> = simplify_case_a(&CaseA { cfg: c.cfg.clone(), ops: c.pre.clone() }).into_iter().map(|x| CaseC09 { cfg: c.cfg.clone(), pre: x.ops, stale: c.stale, kind: c.kind.clone(), crashmark: c.crashmark }).collect();
-        if let Kind::ReadOnly { mode, capsel, ops, flags } = &c.kind {
+        let mut out: Vec<CaseC09> = simplify_case_a(&CaseA {
+            cfg: c.cfg.clone(),
+            ops: c.pre.clone(),
+        })
+        .into_iter()
+        .map(|x| CaseC09 {
+            cfg: c.cfg.clone(),
+            pre: x.ops,
+            stale: c.stale,
+            kind: c.kind.clone(),
+            crashmark: c.crashmark,
+        })
+        .collect();
+        if let Kind::ReadOnly {
+            mode,
+            capsel,
+            ops,
+            flags,
+        } = &c.kind
+        {
             for i in 0..ops.len() {
                 let mut o = ops.clone();
                 o.remove(i);
-                out.push(CaseC09 { cfg: c.cfg.clone(), pre: c.pre.clone(), stale: c.stale, kind: Kind::ReadOnly { mode: *mode, capsel: *capsel, ops: o, flags: *flags }, crashmark: c.crashmark });
+                out.push(CaseC09 {
+                    cfg: c.cfg.clone(),
+                    pre: c.pre.clone(),
+                    stale: c.stale,
+                    kind: Kind::ReadOnly {
+                        mode: *mode,
+                        capsel: *capsel,
+                        ops: o,
+                        flags: *flags,
+                    },
+                    crashmark: c.crashmark,
+                });
             }
         }
         out
